@@ -1168,7 +1168,11 @@ impl<'p, W, R, T> CompilationScope<'p, W, R, T> {
                     new_types.push(if let XType::Auto = t.as_ref() {
                         match args {
                             None => return Err(CompilationError::AutoSpecializationWithoutCall),
-                            Some(args) => self.type_of(&args[i])?,
+                            // a `$` beyond the arguments of the call has nothing to take its type from
+                            Some(args) => self.type_of(
+                                args.get(i)
+                                    .ok_or(CompilationError::AutoSpecializationWithoutCall)?,
+                            )?,
                         }
                     } else {
                         t.clone()
